@@ -69,12 +69,17 @@ func seqOf(e girc.Event) int {
 }
 
 func newDispClient(withRecover bool) (*dispClient, error) {
-	d := &dispClient{ret: make(chan error, 1), pongs: make(chan string, 64)}
 	cfg := girc.Config{Server: "irc.example.org", Port: 6667, Nick: "me", User: "me", Name: "me", AllowFlood: true}
 	if withRecover {
-		cfg.RecoverFunc = func(c *girc.Client, e *girc.HandlerError) { atomic.AddInt32(&d.recoverN, 1) }
+		cfg.RecoverFunc = func(c *girc.Client, e *girc.HandlerError) {}
 	}
-	d.c = girc.New(cfg)
+	return newDispClientFor(girc.New(cfg))
+}
+
+// newDispClientFor connects an existing client to a scripted peer and registers it.
+func newDispClientFor(cl *girc.Client) (*dispClient, error) {
+	d := &dispClient{ret: make(chan error, 1), pongs: make(chan string, 64)}
+	d.c = cl
 	cli, srv := net.Pipe()
 	d.srv = srv
 	d.rd = bufio.NewReader(srv)
